@@ -54,7 +54,7 @@ LEAVES = [0, 1, 2.5, 'a', 'long string ' * 12, None, True, (1, 2), ('x', (3, 4))
 
 
 def plan(tier):
-  n = 14 if tier == 'quick' else 1200
+  n = 30 if tier == 'quick' else 1200
   shards = [{'name': f's{i}', 'kind': 'main', 'n': n, 'start': i * n, 'timeout': 3000} for i in range(16)]
   if tier == 'thorough':
     shards.append({'name': 'repo-tests', 'kind': 'repo-tests', 'n': 1, 'timeout': 3000})
@@ -83,6 +83,19 @@ def _other(cfg):
       except Exception:  # pylint: disable=broad-except
         pass
       break
+  # nodes that are EMPTY in cfg get their first argument / key / element in the other one
+  objs = C.identity_objects(o, include_internals=False)
+  for b in objs.get('buildable', {}).values():
+    if b is not o and not b.__arguments__ and type(b) in (fdl.Config, fdl.Partial):
+      for p in b.__signature_info__.signature.parameters.values():
+        if p.kind in (p.POSITIONAL_OR_KEYWORD, p.KEYWORD_ONLY):
+          setattr(b, p.name, 'first-argument')
+          break
+  for c in objs.get('container', {}).values():
+    if type(c) is dict and not c:
+      c['first-key'] = 1
+    elif type(c) is list and not c:
+      c.append('first-element')
   return o
 
 
@@ -149,6 +162,12 @@ def entry_points():
   add('cast', lambda cfg: casting.cast(fdl.Partial if isinstance(cfg, fdl.Config) else fdl.Config, cfg))
   add('copy_with', lambda cfg: copying.copy_with(cfg, **_one_kwarg(cfg)))
   add('deepcopy_with', lambda cfg: copying.deepcopy_with(cfg, **_one_kwarg(cfg)))
+  add('copy_with(tagged value)', lambda cfg: copying.copy_with(cfg, **_tagged_kwarg(cfg)))
+  add('deepcopy_with(tagged value)', lambda cfg: copying.deepcopy_with(cfg, **_tagged_kwarg(cfg)))
+  add('copy.copy+tag-edits', lambda cfg: _edit_tags(copy.copy(cfg)))
+  add('copy_with+tag-edits', lambda cfg: _edit_tags(copying.copy_with(cfg)))
+  add('cast+tag-edits', lambda cfg: _edit_tags(
+      casting.cast(fdl.Partial if isinstance(cfg, fdl.Config) else fdl.Config, cfg)))
   add('copy.copy', lambda cfg: copy.copy(cfg))
   add('copy.deepcopy', lambda cfg: copy.deepcopy(cfg))
   add('pickle', lambda cfg: pickle.loads(pickle.dumps(cfg)))
@@ -177,6 +196,29 @@ def _one_kwarg(cfg):
   return {}
 
 
+def _tagged_kwarg(cfg):
+  """{name: OtherTag.new(v)} for a keyword argument of cfg that ALREADY carries tags."""
+  for k, ts in cfg.__argument_tags__.items():
+    if ts and isinstance(k, str):
+      other = [t for t in vtags.ALL if t not in ts]
+      if other:
+        return {k: other[0].new('updated')}
+  return _one_kwarg(cfg)
+
+
+def _edit_tags(c):
+  """Tag edits on a shallow copy: they belong to the copy."""
+  for k, ts in list(c.__argument_tags__.items()):
+    if ts:
+      other = [t for t in vtags.ALL if t not in ts]
+      if other:
+        fdl.add_tag(c, k, other[0])
+      fdl.remove_tag(c, k, sorted(ts, key=lambda t: t.__name__)[0])
+      fdl.set_tags(c, k, {vtags.TagB})
+      fdl.clear_tags(c, k)
+  return c
+
+
 def _sub_fixtures(cfg):
   bs = [b for b in C.identity_objects(cfg, include_internals=False).get('buildable', {}).values()
         if b is not cfg and type(b) in (fdl.Config, fdl.Partial)]
@@ -189,7 +231,7 @@ def _some_nodes(cfg):
 
 
 MINIMUMS = {
-    'quick': {'evaluations': 8000, 'contract_evaluations': 8000, 'entry_points_with_evaluations': 59,
+    'quick': {'evaluations': 8000, 'contract_evaluations': 8000, 'entry_points_with_evaluations': 64, 'configs_with_empty_nodes': 30,
               'normal_returns': 5000},
     'thorough': {'evaluations': 1000},
 }
@@ -212,6 +254,18 @@ def run_main(spec, acc):
         for k, c in list(n.kw.items()):
           if isinstance(c, gen.B) and c.btype == 'Config' and rng.random() < 0.3:
             c.btype = 'ArgFactory'
+    if rng.random() < 0.4:
+      # argument-less sub-Buildables and empty containers (a diff then adds their FIRST entry)
+      hosts = [n for n in gen.walk(root) if isinstance(n, gen.B) and n.btype in ('Config', 'Partial')
+               and n.fn in (kinds.node, kinds.node2)]
+      for h in hosts[:2]:
+        free = ['a', 'b', 'c'][max(0, len(h.pos) - 1):]      # (uid, a, b, c): not bound by position
+        if not free:
+          continue
+        h.kw[rng.choice(free)] = rng.choice([
+            lambda: gen.B('Config', rng.choice([kinds.two, kinds.three, kinds.Base])),
+            lambda: gen.Map('dict', []), lambda: gen.Seq('list', [])])()
+        acc.obs('configs_with_empty_nodes')
     sketch = gen.sketch(root)
     nb = sum(isinstance(n, gen.B) for n in gen.walk(root))
     try:
